@@ -16,10 +16,7 @@ def findings():
     rows = ["| id | properties | status | what failed |", "|---|---|---|---|"]
     for e in d["findings"]:
         w = e["what"]
-        m = re.match(r"fixed: property=\S+ \S+ (.*)", w)
-        if m:
-            w = m.group(1)
-        m = re.match(r"fixed: property=\S+ (.*)", w)
+        m = re.match(r"fixed: property=\S+ (?:[0-9a-f]{7,12} )?(.*)", w)
         if m:
             w = m.group(1)
         st = e["status"] + (" " + e.get("commit", "") if e["status"] == "fixed" else "")
